@@ -123,7 +123,7 @@ check('C14', 'color',
       'DESIGN.md section 4, C14')
 
 ENGINES['sql'] = ('specs/sql', ['C15'], 'SqlFilter.tla (three-valued evaluation over a fixed table, bind order, condition '
-                  'builder); driver harness/drivers/c15.py (real sqlite3, recorded cursor.execute)')
+                  'builder), UniqueNames.tla and RecordsMMap.tla (growth items, drift only); driver harness/drivers/c15.py (real sqlite3, recorded cursor.execute)')
 check('C15', 'sql',
       'TLA+ spec of SQL three-valued filter semantics and of the bind list; TLC-enumerated condition lists executed '
       'through SqlMethod on a real sqlite3 connection, returned rows / recorded SQL text / bound values compared',
